@@ -12,15 +12,16 @@ ROUND5 = {
         "a store of the first sample of an evaluation is followed on every path by the loop that averages in the other samples run (C03-9b).",
  "C04": " Also decided: a negative predicted reduction hands back an exit on every path to the return of calculate_ratio, so a positive ratio means the objective was reduced (C04-5b); loops over the points "
         "furthest from the incumbent stop before the incumbent, by their own limit or by every caller's argument (C04-7); the selection tables demand that a finite candidate replaces a NaN incumbent in the incumbent moves too.",
+ "C06": " Also decided: every box projector is handed the lower and the upper end of one box (C06-7).",
  "C07": " Also decided: every %-format of the package binds its arguments and a single conversion is never handed a value that can be a tuple (C07-21, reaching definitions + return expressions of callees); every instance "
         "attribute read through self is assigned by its class's constructor on every path (C07-22); an exit reported by a callee is handed on by every Controller method (C07-19b) and the main loop never goes round with an "
         "exit in hand (C07-19c); range validators accept exactly lower <= value <= upper (18-row decision table, C07-5c) and every parameter that fails its check is reported (C07-5d).",
  "C10": " The atoms of the truth tables are labelled with the writes that can reach their evaluation point, so a boolean local computed before a counter is updated and a same-looking test made after it are different propositions.",
  "C11": " Also decided: the saved Jacobian and its labels never alias the live arrays (C11-2b).",
- "C16": " The affine executor follows every path through the if statements of shift_base (invariant broken on every path = violation, on some = undecided).",
- "C17": " Also decided: a record added to the set is stored where the point count puts it -- np.insert at npt() read before the count changes, or an append under a test that the set is full (C17-9).",
+ "C16": " The affine executor follows every path through the if statements of shift_base (invariant broken on every path = violation, on some = undecided); a local re-based by the incumbent's relative position is followed on every path by shift_base of the same vector (C16-3b).",
+ "C17": " Also decided: a record added to the set is stored where the point count puts it -- np.insert at npt() read before the count changes, or an append under a test that the set is full (C17-9); a swap of two records re-points the incumbent index both ways (C17-5b).",
  "C18": " Also decided: every increase of npt for the next run is clamped to restarts.max_npt on every path to the next solve_main call and appended points are bounded by max_npt minus the points held (C18-10); "
-        "the recorded best value cannot rise inside a run because a geometry loop reached the incumbent (C18-11 = C04-7).",
+        "the recorded best value cannot rise inside a run because a geometry loop reached the incumbent (C18-11 = C04-7); the initial radius is validated against the cap every growth of delta is held to (C18-3b).",
  "C19": " Also decided: a row saved for restoring is a copy, not a view of the row that is overwritten in between (C19-4; keeps the rank-deficiency fallback independent of its random selectors).",
 }
 
